@@ -39,6 +39,10 @@ Assumptions (repeated in the evidence file):
     (0 for a status) on the other ranks; rank tests `rank == 0`, `ncp->rank > 0` ... are tracked;
   * MPI_Allreduce(&a, &b, 1, MPI_INT, MPI_MIN) with the other ranks fault-free gives b = a for a <= 0
     (NC error codes are negative: checked, and a Lean theorem);
+  * a constant error code stored / returned under a condition the event does not decide is ANOTHER
+    failure (request too large, out of memory, bad argument): such paths are outside the quantifier;
+  * status variables are int locals that are not modified through aliases (`&status` anywhere but as a
+    direct call argument fails closed);
   * the dispatcher layer (src/dispatchers) returns the driver's status unchanged (exercised by the
     fault-injection harness on every run, not analysed here).
 """
@@ -769,6 +773,18 @@ class Interp:
 
     def run(self):
         """-> set of (value, ReturnStmt id) over the paths on which the event fired; fell_off flag"""
+        # a status variable whose address escapes (anything but `f(&v)`) could change behind our back
+        direct = set()
+        for c in find_all(self.body, 'CallExpr'):
+            for a in c['inner'][1:]:
+                e = strip_all(a)
+                if isinstance(e, dict) and e.get('kind') == 'UnaryOperator' and e.get('opcode') == '&':
+                    direct.add(e['id'])
+        for u in find_all(self.body, 'UnaryOperator'):
+            if u.get('opcode') == '&' and u['id'] not in direct:
+                d = declref(u['inner'][0])
+                if d and d[0] in self.statuslike:
+                    raise Unsupported('address of status variable %s escapes' % d[1])
         fl = self.ex(self.body, {self.init_state()})
         if fl.gotos:
             raise Unsupported('backward or unresolved goto: %s' % list(fl.gotos))
